@@ -655,6 +655,9 @@ def c13(ctx):
 @check("C17")
 def c17(ctx):
     props.check_props_file(ctx, "Props/C17.v")
+    # refinements and the inherited operators on refined values against the constructor model (operand = handle)
+    live, tail, diffs = api_correspondence(ctx, 3000 if ctx.quick() else 30000)
+    api_composition_search(ctx, tail, diffs, "the operand inside the larger expression is not the refined value")
     cases = special_mode_cases(ctx, "c17", ["-maxlen", "3" if ctx.quick() else "4"])
     ev = 0
     per = Counter()
@@ -736,7 +739,8 @@ def c18(ctx):
                     ctx.violation("wrapper does not emit the function it is named after", rep)
                 continue
             if go_name == "Extract":
-                if sql != "EXTRACT(arg1 FROM arg2)":
+                at = c["arg_text"] or ["", ""]
+                if sql != f"EXTRACT({at[0]} FROM {at[1]})":
                     ctx.violation("EXTRACT wrapper does not pass field and source in declared order", rep)
                 continue
             i = sql.find("(")
@@ -767,7 +771,8 @@ def c18(ctx):
     ctx.cov["wrappers_enumerated"] = len(names)
     ctx.cov["rule"] = ("every exported function of package fn and the conditional functions (registry regenerated from the source) "
                        "for every arity within the declaration (0..3 optional arguments) and every operator / predicate method of "
-                       "ExpBase (reflection), applied to distinguishable arguments arg1..argN; the symbol in the text must "
+                       "ExpBase (reflection), applied to distinguishable arguments arg1..argN and, in every expression position, to calls of the "
+                       "conditional wrappers, a generic function call, a literal and an operator expression; the symbol in the text must "
                        "normalise to the Go name, the arguments must appear once each in declared order, and the text must equal "
                        "the generic constructor's; distinct = wrappers")
     ctx.cov["samples"] = [{"wrapper": c["name"], "sql": c.get("sql")} for c in cases[:3]]
@@ -900,6 +905,33 @@ def pattern_check(ctx, which):
     ctx.obligation(f"correspondence: the model's derivative matcher agrees with Go's regexp on every tested string ({kind} pattern)",
                    not mism, json.dumps(mism[:5]))
     ctx.cov["traces_validated_against_impl"] = len(idx) - len(mism)
+    # a rejected string is reported and not written - whichever option methods were called, in whichever order, and from
+    # inside a statement as well; an accepted one is written the same way everywhere
+    n_var = 0
+    reject_text = {}
+    for c, s in zip(cases, strs):
+        for v in c.get("variants", []):
+            n_var += 1
+            vsql = bytes.fromhex(v["sql"])
+            rep = {"input_hex": c["s"], "input": s.decode("utf8", "replace"), "rendering": v["name"],
+                   "emitted": vsql.decode("utf8", "replace"), "err": v.get("err")}
+            if not c["valid"]:
+                if not v.get("err"):
+                    ctx.violation(f"a string the pattern rejects is rendered without an error ({v['name']})", rep)
+                    break
+                # nothing of a rejected string is written: every rejected string gives the same text in this rendering
+                ref = reject_text.setdefault(v["name"], vsql)
+                if vsql != ref:
+                    rep["text_for_other_rejected_strings"] = ref.decode("utf8", "replace")
+                    ctx.violation(f"a string the pattern rejects leaves a trace in the text ({v['name']})", rep)
+                    break
+            elif v.get("err") and not c.get("err"):
+                ctx.violation(f"a string the pattern accepts is reported as invalid in another rendering ({v['name']})", rep)
+                break
+        else:
+            continue
+        break
+    ctx.cov["option_and_position_variants_rendered"] = n_var
     # direct evaluation: what is emitted for an accepted string lexes as the required shape
     acc = [i for i, c in enumerate(cases) if c["valid"] and not c.get("panic")]
     emitted = []
@@ -1416,6 +1448,14 @@ def api_correspondence(ctx, n):
     ctx.cov["api_calls_without_handler"] = dict(Counter(f"{s['rtype']}.{s['method']}" for s in unmod).most_common(20))
     ctx.obligation("API model: the model's result of every builder call equals the implementation's (all fields)", not diffs,
                    json.dumps([{"type": s["rtype"], "method": s["method"], "prog": s["prog"][-600:]} for s, _ in diffs[:3]]))
+    # extraction is trusted glue here too: a sample of the same requests is re-evaluated inside the kernel
+    k = 30 if ctx.quick() else 300
+    step = max(1, len(live) // k)
+    pairs = [(f"(api {tail(s)} {s['result']})", a) for s, a in list(zip(live, ans))[::step][:k] if len(s["recv"]) + len(s["result"]) < 20000]
+    if pairs:
+        ok, nreq, detail = corr.kernel_crosscheck(pairs, ctx.prop + "api")
+        ctx.obligation("extraction cross-check API: vm_compute inside Coq gives the extracted model's answers", ok, detail)
+        ctx.cov["extraction_crosscheck_requests"] = ctx.cov.get("extraction_crosscheck_requests", 0) + nreq
     ctx.cov["api_steps_compared"] = len(live)
     ctx.cov["api_methods_distinct"] = len({(s["rtype"], s["method"]) for s in live})
     ctx.cov["api_entry_point_steps"] = sum(1 for s in live if s["rtype"] == "qrb")
@@ -1449,6 +1489,9 @@ def api_composition_search(ctx, tail, diffs, what):
 @check("C02")
 def c02(ctx):
     props.check_props_file(ctx, "Props/C02.v")
+    # the operator methods themselves (which tree a call composes) against the constructor model
+    live, tail, diffs = api_correspondence(ctx, 3000 if ctx.quick() else 30000)
+    api_composition_search(ctx, tail, diffs, "an operator or predicate method composes another tree than the one whose text is emitted")
     stride = 12 if ctx.quick() else 1
     n = 2500 if ctx.quick() else 60000
     cases = special_mode_cases(ctx, "c02", ["-n", str(n), "-depth", str(3 if ctx.quick() else 5), "-stride", str(stride)])
